@@ -43,6 +43,8 @@ type Script struct {
 	// the server first answers 401 with a Bearer challenge (realm on the registry's own host) and
 	// an error body, then the token request, then the script.
 	Auth bool `json:"auth,omitempty"`
+	// TokenBody: what the token request is answered with (Auth only): "" = a proper token document
+	TokenBody string `json:"token_body,omitempty"`
 }
 
 var sample = []byte("0123456789")
@@ -54,6 +56,16 @@ func bodyFor(kind string) []byte {
 		return nil
 	case "token":
 		return []byte(`{"token":"scripted-token","expires_in":300}`)
+	case "jsonnull":
+		return []byte(" null ")
+	case "jsonobj":
+		return []byte(`{}`)
+	case "jsonarr":
+		return []byte(`[]`)
+	case "tokennum":
+		return []byte(`{"token":5,"expires_in":"x","issued_at":7}`)
+	case "tokenhuge":
+		return []byte(`{"token":"t","expires_in":99999999999999999999,"issued_at":"never"}`)
 	case "blob":
 		return sample
 	case "tags":
@@ -229,10 +241,14 @@ var hung bool // a previous case left a goroutine spinning: results are no longe
 func run(s Script, v *vt.V) {
 	tr := &scripted{resps: s.Resps}
 	var transport http.RoundTripper = tr
+	tokenBody := s.TokenBody
+	if tokenBody == "" {
+		tokenBody = "token"
+	}
 	if s.Auth {
 		tr.resps = append([]Resp{
 			{Status: 401, Headers: map[string]string{"Www-Authenticate": `Bearer realm="http://registry.test/token",service="registry.test"`, "Content-Type": "application/json"}, Body: "error", CL: "exact", Fault: "none"},
-			{Status: 200, Headers: map[string]string{"Content-Type": "application/json"}, Body: "token", CL: "exact", Fault: "none"},
+			{Status: 200, Headers: map[string]string{"Content-Type": "application/json"}, Body: tokenBody, CL: "exact", Fault: "none"},
 		}, s.Resps...)
 		transport = ociauth.NewStdTransport(ociauth.StdTransportParams{Transport: tr})
 	}
@@ -462,6 +478,9 @@ func genScript(t *rapid.T) Script {
 	s.Op = rapid.SampledFrom(ops).Draw(t, "op")
 	s.Hint = rapid.SampledFrom([]int{0, 0, -1, 1, 1 << 40}).Draw(t, "hint")
 	s.Auth = rapid.IntRange(0, 5).Draw(t, "auth") == 0
+	if s.Auth && rapid.Bool().Draw(t, "oddToken") {
+		s.TokenBody = rapid.SampledFrom([]string{"jsonnull", "jsonobj", "jsonarr", "tokennum", "tokenhuge", "empty", "truncated", "garbage", "huge"}).Draw(t, "tokenBody")
+	}
 	n := rapid.IntRange(0, 8).Draw(t, "nresps")
 	for i := 0; i < n; i++ {
 		r := goodFor(s.Op, i)
@@ -516,7 +535,7 @@ func genScript(t *rapid.T) Script {
 var prop = &vt.Prop[Script]{
 	ID:   "C18",
 	Name: "ClientAnyResponse",
-	Rule: "client operation = each client method (reads drained to EOF, listings drained, chunked writer: open / Write small / Write 100 KiB / Size / Close / Commit / Size+ID / Commit again / Write / Cancel / Close, resume with explicit offset and with -1) x ListPageSize in {-5,-1,0,1,2,1000} x chunk hint x {plain transport, ociauth's standard transport whose first exchange is a 401 Bearer challenge with an error body and a token request to the registry's own host} x a script of 0-8 responses, each the expected answer distorted in one dimension: status from every class (2xx the operation does not expect, 3xx without Location, 4xx, 5xx), one of Location / Range / Content-Range / Docker-Content-Digest / Link (incl. well-formed targets followed by parameters of every shape) / Content-Type / OCI-Chunk-Min-Length absent / empty / malformed / contradictory / huge, body empty / truncated / wrong-shape / garbage / null / 2 MiB, Content-Length unknown / too long / too short; served by a scripted RoundTripper that sets Response.Request and fails every request after the script is exhausted; oracle = no panic (also none when a returned error is printed, unwrapped and asked for its code, detail, status and response body), every individual API call returns within 10 s, issues at most (answers still unconsumed) + 1 requests, and never sends a request while it holds the unread body of an earlier response of the same call (that hangs under a one-connection-per-host transport); non-trivial = a distorted response was actually consumed; distinct = (operation, page size, consumed fault vector)",
+	Rule: "client operation = each client method (reads drained to EOF, listings drained, chunked writer: open / Write small / Write 100 KiB / Size / Close / Commit / Size+ID / Commit again / Write / Cancel / Close, resume with explicit offset and with -1) x ListPageSize in {-5,-1,0,1,2,1000} x chunk hint x {plain transport, ociauth's standard transport whose first exchange is a 401 Bearer challenge with an error body and a token request to the registry's own host, answered with a proper token document or with null, {}, [], wrongly typed, overflowing, empty, truncated or huge bodies} x a script of 0-8 responses, each the expected answer distorted in one dimension: status from every class (2xx the operation does not expect, 3xx without Location, 4xx, 5xx), one of Location / Range / Content-Range / Docker-Content-Digest / Link (incl. well-formed targets followed by parameters of every shape) / Content-Type / OCI-Chunk-Min-Length absent / empty / malformed / contradictory / huge, body empty / truncated / wrong-shape / garbage / null / 2 MiB, Content-Length unknown / too long / too short; served by a scripted RoundTripper that sets Response.Request and fails every request after the script is exhausted; oracle = no panic (also none when a returned error is printed, unwrapped and asked for its code, detail, status and response body), every individual API call returns within 10 s, issues at most (answers still unconsumed) + 1 requests, and never sends a request while it holds the unread body of an earlier response of the same call (that hangs under a one-connection-per-host transport); non-trivial = a distorted response was actually consumed; distinct = (operation, page size, consumed fault vector)",
 	Gen:  genScript,
 	Run:  run,
 }
